@@ -198,9 +198,20 @@ func crashClass(stderr string) (cls string, det string) {
 	if len(first) > 120 {
 		first = first[:120]
 	}
-	// first frame of the code under test or its own dependencies in the crashing goroutine
+	// first frame of the code under test or its own dependencies in the crashing goroutine. For the
+	// runtime's "all goroutines are asleep" the cause is the goroutine waiting on a real mutex or
+	// semaphore (everything else is parked by the bubble): start at that goroutine.
 	frame := ""
-	for _, l := range lines[idx:] {
+	start := idx
+	if strings.Contains(first, "all goroutines are asleep") {
+		for i := idx; i < len(lines); i++ {
+			if strings.HasPrefix(lines[i], "goroutine ") && (strings.Contains(lines[i], "[sync.Mutex.Lock") || strings.Contains(lines[i], "[sync.RWMutex") || strings.Contains(lines[i], "[semacquire")) {
+				start = i
+				break
+			}
+		}
+	}
+	for _, l := range lines[start:] {
 		t := strings.TrimSpace(l)
 		if t == "" && frame == "" && l != lines[idx] {
 			// end of the first goroutine block
@@ -224,7 +235,15 @@ func crashClass(stderr string) (cls string, det string) {
 	if end > len(lines) {
 		end = len(lines)
 	}
-	return first + " @ " + frame, strings.Join(lines[idx:end], "\n")
+	det = strings.Join(lines[idx:end], "\n")
+	if start != idx {
+		e2 := start + 24
+		if e2 > len(lines) {
+			e2 = len(lines)
+		}
+		det = first + "\n" + strings.Join(lines[start:e2], "\n")
+	}
+	return first + " @ " + frame, det
 }
 
 func tail(s string, n int) string {
